@@ -322,9 +322,12 @@ class G:
     def m_masked(self):
         """masked copy with an else branch (instances / non-instances of ldn)."""
         self.use("B", "y")
-        self.asserts_extra.add("assert m <= 4")
+        if self.r.random() < 0.7:
+            # without it the mask argument may exceed what ldn's own assertion allows
+            self.asserts_extra.add("assert m <= 4")
         t = self.fresh("v")
-        out = [f"{t}: f32[4]", "for k in seq(0, 4):", "    if k < m:", f"        {t}[k] = B[k]"]
+        cond = self.r.choice(["k < m", "k < m", "k < m", "k == m", "k + 1 <= m", "m > k"])
+        out = [f"{t}: f32[4]", "for k in seq(0, 4):", f"    if {cond}:", f"        {t}[k] = B[k]"]
         if self.r.random() < 0.7:
             out += ["    else:", f"        {t}[k] = {self.const()}"]
         out += ["for k in seq(0, 4):", f"    y[0] += {t}[k]"]
@@ -501,6 +504,38 @@ class G:
             body = [f"if {outer}:", f"    {c}", "else:"] + ["    " + l for l in inner_if]
         return ["for i in seq(0, n):"] + ["    " + l for l in body]
 
+    def m_libshape(self):
+        """loops shaped like the bodies of the library procedures (vcopy / vaxpy / zero) but with
+        zero and non-zero lower bounds and shortened ranges: instances and near-instances for replace."""
+        r = self.r
+        self.use("x", "y")
+        lo, hi = r.choice([("0", "n"), ("1", "n"), ("0", "n - 1"), ("2", "n"), ("n / 2", "n"), ("0", "n")])
+        if lo == "2":
+            self.asserts_extra.add("assert n > 2")
+        kind = r.choice(["copy", "axpy", "copy"])
+        if kind == "copy":
+            return [f"for i in seq({lo}, {hi}):", "    y[i] = x[i]"]
+        self.use("s")
+        return [f"for i in seq({lo}, {hi}):", "    y[i] += s * x[i]"]
+
+    def m_col4(self):
+        """4-element loops over a COLUMN of a 2-D buffer (stride m, not 1): near-instances of the
+        unit-stride instructions ld4 / add4 / fma4."""
+        r = self.r
+        self.use("A", "y")
+        self.asserts_extra.add("assert n >= 4")
+        t = self.fresh("c")
+        kind = r.choice(["ld", "ld", "st", "add"])
+        if kind == "ld":
+            body = [f"{t}: f32[4]", "for k in seq(0, 4):", f"    {t}[k] = A[k, 0]", "for k in seq(0, 4):", f"    y[k] += {t}[k]"]
+        elif kind == "st":
+            self.use("C")
+            body = [f"{t}: f32[4]", "for k in seq(0, 4):", f"    {t}[k] = y[k]", "for k in seq(0, 4):", f"    C[k, 0] = {t}[k]"]
+        else:
+            self.use("C")
+            body = ["for k in seq(0, 4):", "    C[k, 0] = A[k, 0] + y[k]"]
+        return body
+
     def m_fold(self):
         self.use("x", "y")
         c = self.const()
@@ -514,7 +549,7 @@ class G:
     MOTIFS = [
         "elementwise", "nest2d", "temp", "accum", "stencil", "guard", "small", "vec4", "call", "window",
         "two_loops", "reduce_consts", "repeat", "padded_acc", "row_alloc", "masked", "shift_copy", "else_alloc",
-        "two_ifs", "instr_calls", "sliding", "temp2d", "fold", "prefix", "bcast", "triangular", "nested_if",
+        "two_ifs", "instr_calls", "sliding", "temp2d", "fold", "prefix", "bcast", "triangular", "nested_if", "libshape", "col4",
     ]
 
     # ops whose side conditions are decided by what the motif contains: the session
@@ -549,6 +584,8 @@ class G:
         "bcast": ["fission", "autofission", "lift_alloc", "sink_alloc", "autolift_alloc", "reorder_loops", "inline_assign", "expand_dim", "bind_expr", "lift_scope"],
         "triangular": ["reorder_loops", "lift_scope", "divide_loop", "cut_loop", "shift_loop", "fission", "unroll_loop", "mult_loops", "parallelize_loop", "remove_loop", "add_loop"],
         "nested_if": ["lift_scope", "specialize", "eliminate_dead_code", "fission", "reorder_stmts", "merge_writes", "divide_loop", "cut_loop", "unroll_loop"],
+        "libshape": ["replace", "cut_loop", "shift_loop", "divide_loop", "join_loops", "stage_mem", "extract_subproc"],
+        "col4": ["replace", "stage_mem", "unroll_loop", "set_memory", "inline_window", "bind_expr"],
         "config": ["bind_config", "write_config", "delete_config", "reorder_stmts", "fission", "inline", "call_eqv", "fuse"],
         "cfg_rwo": ["delete_config", "write_config", "reorder_stmts", "bind_config", "fission", "lift_scope"],
         "cfg_cond": ["delete_config", "write_config", "bind_config", "reorder_stmts", "lift_scope", "eliminate_dead_code", "specialize"],
